@@ -734,13 +734,17 @@ class BaseTaskPool:
                 return_exceptions=return_exceptions,
             )
         self._meta_tasks_cancelled.clear()
+        task_ids = [*self._tasks_ended, *self._tasks_cancelled]
         await gather(
             *self._tasks_ended.values(),
             *self._tasks_cancelled.values(),
             return_exceptions=return_exceptions,
         )
-        self._tasks_ended.clear()
-        self._tasks_cancelled.clear()
+        # Forget only the tasks that were awaited here; a task that was
+        # cancelled or ended in the meantime may still be in its callbacks.
+        for task_id in task_ids:
+            self._tasks_ended.pop(task_id, None)
+            self._tasks_cancelled.pop(task_id, None)
 
     async def gather_and_close(
         self,
